@@ -532,6 +532,21 @@ def run(prop, tier, seed, timeout_s, args, t_start):
             if ncand >= 8 and len(solved) < len(work) and os.environ.get("VERIF_NO_EARLY") != "1" and not known:
                 early = True     # enough refuted obligations to triage: fail fast
                 break
+        # second chance for goals left undecided while all cores were busy: alone, with four times the budget
+        if not early:
+            retry = []
+            for idx, sr in enumerate(solved):
+                for g in sr["script"]["goals"]:
+                    if g["kind"] != "canary" and sr["results"][g["id"]]["res"] not in ("unsat", "sat", "cand"):
+                        s2 = dict(sr["script"])
+                        s2["goals"] = [dict(g)]
+                        retry.append((idx, g["id"], (s2, timeout_s * 4, False)))
+            if retry and len(retry) <= 64:
+                for (idx, gid, _), sr2 in zip(retry, pool.map(solve_script, [w for _, _, w in retry], chunksize=1)):
+                    r2 = sr2["results"].get(gid)
+                    if r2 is not None and r2["res"] in ("unsat", "sat", "cand"):
+                        r2["ms"] += solved[idx]["results"][gid]["ms"]
+                        solved[idx]["results"][gid] = r2
         t_solve = time.time() - t_b
         t_c = time.time()
         # undecided paths: ignore if infeasible
